@@ -15,6 +15,8 @@
  *  D4  every history of <= 4 messages over {undefined headers of length 1..6, SYST:ERR?, *CLS, two undefined units} on one
  *      context (static-heap build: info heap of every size 5..12).
  *  D6  "A <token> NL" for every token length 1..400 of 10 token shapes (long numbers, mnemonics, strings, blocks, lists).
+ *  D8  every single-byte substitution and insertion (all 256 byte values) at every position of 16 well-formed messages.
+ *  D7  "A <literal> NL" for 12312 decimal literals that round at the 6th/15th digit when echoed (nines runs, 1000..1, 1999..).
  *  D5  "A " + every string of length <= 5 over 11 token-forming bytes (blocks, strings, expressions, lists) in exactly
  *      fitting buffers, whole and one byte per call.
  * Oracle: sanitizer reports, watchdog, "SCPI_Input returned and buffer.position < buffer.length".
@@ -206,6 +208,9 @@ int main(int argc, char ** argv) {
 #endif
     L1 = mc_thorough ? 5 : 4;
     L2 = mc_thorough ? 5 : 4;
+#if USE_CUSTOM_DTOSTRE
+    if (!mc_thorough) { L1 = 2; L2 = 3; }      /* this configuration differs from the default one only in the formatting of float/double results: D6/D7 carry it */
+#endif
     /* ---- D1 + D3 ---- */
     typed_mode = 0;
     for (len = 0; len <= L1; len++) {
@@ -327,6 +332,76 @@ int main(int argc, char ** argv) {
             typed_mode = 0;
             if (n_handler != h0) n_nontrivial++;
             free(msg);
+        }
+    }
+    /* ---- D7: decimal literals whose echo (SCPI_ResultFloat/Double, *ToStr, NumberToStr in the omnivore handler) rounds at the
+     *      6th / 15th digit: [sign] nines-run / one-zeros-run of 0..18 digits with the point at three places, a closing digit,
+     *      five exponents ---- */
+    {
+        static const char * exps[] = {"", "E-5", "E10", "E300", "E-310", "E-7"};
+        static const char * tails[] = {"", "4", "5", "9", "49", "51"};
+        int sg, k, pp, t, e, fam;
+        for (fam = 0; fam < 3; fam++) for (sg = 0; sg < 2; sg++) for (k = 0; k <= 18; k++) for (pp = 0; pp < 3; pp++) for (t = 0; t < 6; t++) for (e = 0; e < 6; e++) {
+            unsigned char msg[64]; size_t ml = 0; int j, point;
+            char * ib;
+            if (!MC_CASE()) continue;
+            point = pp == 0 ? 0 : pp == 1 ? (k + 1) / 2 : k;
+            msg[ml++] = 'A'; msg[ml++] = ' ';
+            if (sg) msg[ml++] = '-';
+            for (j = 0; j <= k; j++) {
+                if (j == point) msg[ml++] = '.';
+                if (j < k) msg[ml++] = (unsigned char) (fam == 0 ? '9' : fam == 1 ? (j == 0 ? '1' : '0') : (j == 0 ? '1' : '9'));
+            }
+            for (j = 0; tails[t][j]; j++) msg[ml++] = (unsigned char) tails[t][j];
+            for (j = 0; exps[e][j]; j++) msg[ml++] = (unsigned char) exps[e][j];
+            msg[ml++] = '\n';
+            mc_case_tag = "D7-rounding-literal"; mc_case_s[0] = msg; mc_case_n[0] = ml;
+            h0 = n_handler;
+            ib = (char *) malloc(ml + 1);
+            typed_mode = 0;
+            fresh(ib, ml + 1); feed(msg, (int) ml);
+            for (typed_mode = 5; typed_mode <= 17; typed_mode += (typed_mode == 6 ? 3 : typed_mode == 9 ? 8 : 1)) { feed(msg, (int) ml); SCPI_ErrorClear(&ctx); }
+            typed_mode = 0;
+            SCPI_ErrorClear(&ctx);
+            ASAN_UNPOISON_MEMORY_REGION(ib, ml + 1);
+            free(ib);
+            fresh(ibufs[8], 8);
+            if (n_handler != h0) n_nontrivial++;
+        }
+    }
+    /* ---- D8: every single-byte mutation of well-formed messages: each of the 256 byte values substituted for, and inserted
+     *      before, every position of 16 base messages that together use every token kind; delivered whole into an exactly
+     *      fitting buffer, and in two chunks split at the mutated position into a buffer of 9 bytes (overrun for the longer
+     *      ones), each followed by a flush ---- */
+    {
+        static const char * bases[] = {
+            "A 1\n", "A:E1? 12.5E-3 V\n", "*A?;:A \"x\"\"y\"\n", "A #14abcd,'q''r'\n", "A (@1!2:3!4,5)\n", "A #HfF,#q17,#B101\n", "A 1,2;E 3\n", "A MIN,DEF\n",
+            "A1:A2:E3? 1\n", "A (1:2,3)\n", "A #0ab\n", "E2:A3 -.5e+3OHM\r\n", "A_1:E:A \t 7 ,\t8\n", "SYST:ERR?;*CLS\n", "A 1 E 2;;A\n", "A \"a\n"
+        };
+        int bi, pos, b, op;
+        for (bi = 0; bi < 16; bi++) {
+            int bl0 = (int) strlen(bases[bi]);
+            for (pos = 0; pos < bl0; pos++) for (b = 0; b < 256; b++) for (op = 0; op < 2; op++) {
+                unsigned char msg[64]; int ml; char * ib;
+                if (!MC_CASE()) continue;
+                memcpy(msg, bases[bi], (size_t) pos);
+                msg[pos] = (unsigned char) b;
+                memcpy(msg + pos + 1, bases[bi] + pos + (op ? 0 : 1), (size_t) (bl0 - pos - (op ? 0 : 1)));
+                ml = bl0 + op;
+                mc_case_tag = "D8-byte-mutation"; mc_case_s[0] = msg; mc_case_n[0] = (size_t) ml; mc_case_i[0] = bi; mc_case_i[1] = pos; mc_case_i[2] = b; mc_case_i[3] = op;
+                h0 = n_handler;
+                typed_mode = 0;
+                ib = (char *) malloc((size_t) ml + 1);
+                fresh(ib, (size_t) ml + 1); feed(msg, ml); feed(msg, 0);
+                SCPI_ErrorClear(&ctx);
+                ASAN_UNPOISON_MEMORY_REGION(ib, (size_t) ml + 1);
+                free(ib);
+                fresh(ibufs[9], 9); feed(msg, pos + 1); feed(msg + pos + 1, ml - pos - 1); feed(msg, 0);
+                SCPI_ErrorClear(&ctx);
+                fresh(ibufs[8], 8);
+                if (n_handler != h0) n_nontrivial++;
+                { uint64_t hh = ((uint64_t) (n_handler - h0) << 20) ^ ((uint64_t) ctx.registers[SCPI_REG_ESR] << 40) ^ (uint64_t) bi; mc_outcome(mc_hash(&hh, 8, 1)); }
+            }
         }
     }
 #if USE_DEVICE_DEPENDENT_ERROR_INFORMATION
